@@ -7,6 +7,7 @@ import (
 	"os"
 	"path"
 	"path/filepath"
+	"sort"
 	"strconv"
 	"strings"
 
@@ -157,7 +158,8 @@ func (f File) Validate() error {
 		}
 		customTypes[msg.Name] = struct{}{}
 		msgNames := map[string]struct{}{}
-		for _, fd := range msg.Fields {
+		for _, num := range sortedFieldNumbers(msg.Fields) {
+			fd := msg.Fields[num]
 			if _, ok := msgNames[fd.Name]; ok {
 				return fmt.Errorf("message %s has duplicate field name %s", msg.Name, fd.Name)
 			}
@@ -184,7 +186,8 @@ func (f File) Validate() error {
 		}
 		customTypes[un.Name] = struct{}{}
 		unionNames := map[string]struct{}{}
-		for _, fd := range un.Fields {
+		for _, num := range sortedFieldNumbers(un.Fields) {
+			fd := un.Fields[num]
 			if _, ok := unionNames[fd.name()]; ok {
 				return fmt.Errorf("union %s has duplicate field name %s", un.Name, fd.name())
 			}
@@ -209,7 +212,8 @@ func (f File) Validate() error {
 		}
 	}
 	for _, msg := range f.Messages {
-		for _, fd := range msg.Fields {
+		for _, num := range sortedFieldNumbers(msg.Fields) {
+			fd := msg.Fields[num]
 			if err := typeDefined(fd.FieldType, allTypes); err != nil {
 				return err
 			}
@@ -260,6 +264,17 @@ func (f File) Validate() error {
 	}
 
 	return nil
+}
+
+// sortedFieldNumbers lists the keys of a message's or union's field map in ascending
+// order, so that the first problem found (and reported) is the same on every call.
+func sortedFieldNumbers[F any](fields map[uint8]F) []uint8 {
+	nums := make([]uint8, 0, len(fields))
+	for num := range fields {
+		nums = append(nums, num)
+	}
+	sort.Slice(nums, func(i, j int) bool { return nums[i] < nums[j] })
+	return nums
 }
 
 func typeDefined(ft FieldType, allTypes map[string]struct{}) error {
